@@ -19,6 +19,9 @@ CLAIMED = {
  "C01": ("exploration", "deterministic simulation: seeded emitter interleavings (yield stalls), latency/jitter/chunking network, typed-handler delivery oracle keyed by unique emission ids",
          "Real sio server and 1-3 real sio clients over the simulated network on polling / websocket / polling->websocket upgrade, recovery on/off, three buffer limits; up to 8 emitter tasks per run emit events of 12 argument-shape classes and 17 event names with size targets at the 125/126, 32 KiB, 64 KiB and limit boundaries; each emission must reach exactly one handler, the one registered for its name, with equal arguments; any disconnect on the fault-free network is a violation.",
          "§7 C01", TB),
+ "C03": ("exploration", "deterministic simulation: reply delays placed around the ack time-out incl. exact coincidence on a zero-latency network, offline (buffered) emits, black-holed link, duplicate ACKs from a raw server; callback-counting oracle with measured slack",
+         "Real sio server and client, both directions, text and binary (0-3 attachments): peers answer after {0, T-eps, exactly T, T+eps, never}, some call the ack function twice; coincide mode produces the reply exactly T (+-2 ns) after the emit on a zero-latency network; offline mode emits before Connect and connects before or after the time-out; cut mode black-holes the link with acks outstanding; rawdup: a raw WebSocket server sends every ACK 2-3 times. Per callback: at most one entry; with a time-out exactly one, by emit+T+measured slack, carrying the peer's reply (id echoed, payload equal) or ErrAckTimeout with zero values - the reply when it was there clearly in time, the time-out when the peer acked clearly late; afterwards a fresh emit-with-ack on the same socket completes and no Socket.IO-level mutex is left held.",
+         "§7 C03", TB),
  "C04": ("exploration", "deterministic simulation: real adapters + BroadcastOperator behind a recording rig; seeded membership/broadcast histories against a reference model, interval semantics under concurrency with stalls on the adapter mutex, porcupine for membership operations; exhaustive 3x3 matrix as a fixed plan",
          "Component rig over the repository's own SocketStore/Socket interfaces (in-memory and session-aware adapter). Sequential histories of join/leave/disconnect/SocketsJoin/SocketsLeave/DisconnectSockets/namespace and socket broadcasts/operator reuse: recipients equal the model exactly, each once, never the sender, membership equals the net effect of joins and leaves, a disconnected socket is in no room. Fixed plan: all 2^9 membership matrices of 3 sockets x 3 rooms x all 64 (T,E) (exhaustive). Concurrent histories (2-5 tasks, stalls while apply() has released its mutex): a socket whose membership nobody touched during the broadcast gets it iff the model says so, everybody else 0 or 1 times, nobody twice; AddAll/Delete/DeleteAll/SocketRooms histories linearizable against a map of sets.",
          "§7 C04", TB),
